@@ -39,7 +39,7 @@ def replay(args, outdir):
 
             class R(orig):
                 pass
-            fn = {'L2_calls_and_tags': H._l2_calls, 'L3_dove_safe_span': H._l3_dove}[lemma]
+            fn = {'L2_calls_and_tags': H._l2_calls, 'L3_dove_safe_span': H._l3_dove, 'L4_shared_caller_two_contigs': H._l4_two_contigs}[lemma]
             ok = fn(**a)     # FakeRead carries reference_bases; the reference handle is the real pysam.FastaFile
             sig = lemma
     except Exception as e:
